@@ -4,6 +4,7 @@
  * case parameters
  *   CFG    0: no priorities  1: higher_outgoing_priority< c3, c1 > on service S1 + higher_outgoing_priority< S2 > on the server
  *          2: higher_outgoing_priority< c2 > on service S1          (one shim unit per CFG)
+ *          3: as 1, with include_service< S2 > as first attribute of S1: handle 2 is the include, every handle below + 1
  *   IND    0: notification  1: indication
  *   HOW    0: request by bound value ( server.notify( value ) )  1: by UUID ( server.notify< uuid >() )
  *   OUTSZ  size of the output buffer handed to l2cap_output (the l2cap layer passes the MTU, 23), exact-size heap object
@@ -44,12 +45,13 @@ static unsigned cancelations;
 void vf_e10_env_event_cancelation(void) { ++cancelations; }
 
 static int cfg;
+#define SHIFT ((unsigned)(cfg == 3 ? 1 : 0))     /* the include attribute of configuration 3 */
 
 /* the client's view of its subscription: Read Request on the CCCD handle */
 static unsigned read_cccd(int k)
 {
     uint8_t* pdu = vf_alloc(3); uint8_t* out = vf_alloc(23);
-    pdu[0] = 0x0a; pdu[1] = (uint8_t)CCCD_H[k]; pdu[2] = 0;
+    pdu[0] = 0x0a; pdu[1] = (uint8_t)(CCCD_H[k] + SHIFT); pdu[2] = 0;
     size_t os = 23;
     vf_e10_input(cfg, pdu, 3, out, &os);
     OBSERVE(os);
@@ -101,7 +103,7 @@ void harness(void)
         CHECK(os == 3 + n, "a subscribed connection gets one PDU with the value truncated to the buffer (MTU) - 3");
         if (os == 3 + n) {
             CHECK(out[0] == (ind ? 0x1d : 0x1b), "the PDU is a Handle Value Notification / Indication as requested");
-            CHECK((unsigned)(out[1] | (out[2] << 8)) == VAL_H[k], "the PDU carries the value handle of the requested characteristic");
+            CHECK((unsigned)(out[1] | (out[2] << 8)) == VAL_H[k] + SHIFT, "the PDU carries the value handle of the requested characteristic");
             for (unsigned i = 0; i < 30; ++i)
                 if (i < n) CHECK(out[3 + i] == vals[VAL_OFF[k] + i], "the PDU carries the current value of the requested characteristic");
         }
